@@ -3,6 +3,7 @@
 package props
 
 import (
+	"bytes"
 	"crypto/md5"
 	"encoding/hex"
 	"encoding/json"
@@ -563,6 +564,58 @@ func c10PrefixBuckets(k backends.Kind, force bool) (ds []disc) {
 	return ds
 }
 
+// c10LostMetadata: the multi-bucket fs backend on a real directory whose metadata directory was lost
+// (what a crash between the object file and its metadata file leaves for one key, here for all): the
+// backend re-derives sizes and ETags from the object files - each from the file of the addressed
+// (bucket, key), also when the key's first segment spells another bucket's name.
+func c10LostMetadata(k backends.Kind, first string) (ds []disc) {
+	e := newC10Env(k)
+	defer e.st.Close()
+	mine, theirs := []byte("the object bk0/bk1/a, which only looks like a path into bk1"), []byte(c10Init["bk1"]["a"])
+	if r := put(e.st, "bk0", "bk1/a", mine); r.Status != 200 {
+		return dsc("harness", "backend=%s: put bk0/bk1/a: %s", k, r)
+	}
+	if err := os.RemoveAll(filepath.Join(e.st.Dir(), "root", "metadata")); err != nil {
+		return dsc("harness", "backend=%s: %v", k, err)
+	}
+	os.MkdirAll(filepath.Join(e.st.Dir(), "root", "metadata"), 0700)
+	if err := e.st.Reopen(); err != nil {
+		return dsc("reopen-failed", "backend=%s: the store does not open without its metadata files: %v", k, err)
+	}
+	fail := func(kind, f string, a ...interface{}) {
+		ds = append(ds, dsc(kind, "backend=%s metadata lost, first request %s: "+f, append([]interface{}{k, first}, a...)...)...)
+	}
+	list := func(q ...string) {
+		doc, r := listDoc(e.st, "bk0", q...)
+		if doc == nil {
+			fail("bucket-unlistable", "listing bk0 %v answers %s", q, r)
+			return
+		}
+		for _, c := range doc.Contents {
+			if c.Key == "bk1/a" && (c.ETag != etagOf(mine) || c.Size != int64(len(mine))) {
+				fail("read-outside-bucket", "listing bk0 %v shows bk1/a with size %d ETag %s; the object has %d bytes, ETag %s (bk1/a in bucket bk1 has %d bytes, ETag %s)", q, c.Size, c.ETag, len(mine), etagOf(mine), len(theirs), etagOf(theirs))
+			}
+		}
+	}
+	switch first {
+	case "list-delimited":
+		list("prefix", "bk1/", "delimiter", "/")
+	case "list-flat":
+		list()
+	case "head":
+		s3x.Do(e.st.Handler, &s3x.Req{Method: "HEAD", Path: "/bk0/bk1/a"})
+	}
+	list("prefix", "bk1/", "delimiter", "/")
+	list()
+	if g := get(e.st, "bk0", "bk1/a"); g.Status != 200 || !bytes.Equal(g.Body, mine) || g.Header.Get("ETag") != etagOf(mine) {
+		fail("read-outside-bucket", "GET bk0/bk1/a answers %d, %d bytes, ETag %s; the object has %d bytes, ETag %s", g.Status, len(g.Body), g.Header.Get("ETag"), len(mine), etagOf(mine))
+	}
+	if g := get(e.st, "bk1", "a"); g.Status != 200 || !bytes.Equal(g.Body, theirs) || g.Header.Get("ETag") != etagOf(theirs) {
+		fail("other-key-changed", "GET bk1/a answers %d, %d bytes, ETag %s", g.Status, len(g.Body), g.Header.Get("ETag"))
+	}
+	return ds
+}
+
 func c10Replay(check string, raw json.RawMessage) ([]disc, error) {
 	if check == "uploads" {
 		var cs c10UpCase
@@ -581,6 +634,8 @@ func c10Replay(check string, raw json.RawMessage) ([]disc, error) {
 		return c10Distinct(cs.Backend, cs.Ops[0].Key, cs.Ops[1].Key), nil
 	case "internal":
 		return c10Internal(cs.Backend), nil
+	case "lost-metadata":
+		return c10LostMetadata(cs.Backend, cs.Ops[0].Key), nil
 	case "prefix-buckets":
 		return c10PrefixBuckets(cs.Backend, len(cs.Ops) > 0 && cs.Ops[0].K == "force"), nil
 	}
@@ -767,6 +822,15 @@ func c10Run(t *testing.T, c *evid.Collector) {
 		}
 	}
 	if evid.Shard() == 0 {
+		for _, k := range kinds {
+			if k != backends.MultiDir {
+				continue
+			}
+			for _, first := range []string{"list-delimited", "list-flat", "head"} {
+				cs := c10Case{Backend: k, Ops: []c10Op{{K: "lost-metadata", B: "bk0", Key: first}}}
+				record("lost-metadata", cs, c10LostMetadata(k, first), 1, "fixed")
+			}
+		}
 		for _, k := range kinds {
 			if k.IsSingle() {
 				continue
